@@ -279,7 +279,10 @@ def check(pid, tier, verif_seed, n_override=None):
     print(f'[{pid}] tier={tier} VERIF_SEED={verif_seed} runs={n} '
           f'hash_classes={nclasses} workers={workers}', flush=True)
     src = subprocess.run(
-        [PY, '-c', 'import aurel,os;print(os.path.dirname(aurel.__file__))'],
+        [PY, '-c', 'import os,sys\n'
+         'a=os.environ.get("VERIF_AUREL_SRC")\n'
+         'if a: sys.path.insert(0,a)\n'
+         'import aurel;print(os.path.dirname(aurel.__file__))'],
         env=child_env(0), cwd=VERIF, stdout=subprocess.PIPE, text=True
     ).stdout.strip()
     print(f'[{pid}] aurel under test: {src}', flush=True)
@@ -357,11 +360,26 @@ def check(pid, tier, verif_seed, n_override=None):
             rp = json.load(f)
         new_violations.append((sig, path, rp, len(by_sig[sig])))
 
+    # every listed known finding is re-confirmed from its committed witness
+    # (fresh interpreter) and printed, whether or not this batch sampled it
     for kf in known:
-        if kf.get('status') == 'known' and kf['signature'] in known_hit:
+        if kf.get('status') != 'known':
+            continue
+        n = known_hit.get(kf['signature'], 0)
+        wit = kf.get('witness')
+        still = None
+        if wit and os.path.exists(os.path.join(VERIF, wit)):
+            rc, _ = replay_file(os.path.join(VERIF, wit))
+            still = (rc == 1)
+        if still or (still is None and n):
             print(f"KNOWN-FINDING: property={pid} {kf['what']} "
-                  f"[sig {kf['signature']}; {known_hit[kf['signature']]} "
-                  f"run(s); witness {kf.get('witness', '-')}]", flush=True)
+                  f"[sig {kf['signature']}; hit in {n} run(s) of this batch;"
+                  f" witness {wit} reproduces]", flush=True)
+            known_hit.setdefault(kf['signature'], n)
+        else:
+            print(f"[{pid}] note: listed known finding {kf['signature']} no "
+                  f"longer reproduces from {wit} ({n} hits in this batch)",
+                  flush=True)
     for sig, path, rp, cnt in new_violations:
         print(f'VIOLATION property={pid} replay={path}')
         print(f"  sig={sig} seed={rp['seed']:016x} hashseed={rp['hashseed']}"
